@@ -233,7 +233,7 @@ PROPS["C08"] = dict(
     technique="deterministic fault injection on a stored message: writer -> faulty medium -> regenerated Unmarshal vs dynamicpb reference; exhaustive single-fault enumeration (every truncation offset, every bit flip) per drawn small message plus seeded fault combinations; allocation metering",
     design_ref="DESIGN.md 4.4, 5 (C08)",
     level_text=("For drawn valid messages of every corpus type (87 types, three runtimes), written by the harness's reference encoder, the medium damages the stored bytes: for messages of "
-                "up to 48 bytes every truncation offset and every single-bit flip is enumerated, otherwise a drawn combination of up to three faults (truncate, bit flip, inflate/deflate a "
+                "up to 160 bytes every truncation offset and every single-bit flip is enumerated, otherwise a drawn combination of up to three faults (truncate, bit flip, inflate/deflate a "
                 "length prefix incl. 2^31-1/2^31/2^63, duplicate or drop a record) is applied. The regenerated Unmarshal must not panic, must allocate linearly in the input, and whenever "
                 "it and the reference runtime (dynamicpb on the schema's own descriptor) both accept, the decoded messages must have the same canonical digest. A reader rejecting what the "
                 "other accepts is not a violation (the property only constrains the accept/accept case). No scheduler or clock is involved: this is the single-actor corner of the technique."),
